@@ -67,6 +67,28 @@ Theorem C16_lookup_refines_spec_partial : forall es name,
 Proof. exact lookup_refines_spec_partial. Qed.
 Print Assumptions C16_lookup_refines_spec_partial.
 
+(* the process-wide cache of parsed files (SSHConfig._config_files behind ssh_config_factory) is
+   invisible: on EVERY history of direct lookups and driver constructions (explicit port / user /
+   key or not), over any paths and names, the cached parse stays the parse of the file and every
+   output is the one a fresh parse of the file gives ([run], about which the theorems above speak)
+   -- given that nothing writes to the live Host object lookup hands out, a fact read from the
+   source on every run (gen_lookup_result_written) *)
+Theorem C16_cache_invisible : forall (file : bytes -> list (bytes * host)) (ops : list sop),
+  (forall p d, cget p (fst (srun file gen_lookup_result_written [] ops)) = Some d -> build (file p) = Ok d)
+  /\ snd (srun file gen_lookup_result_written [] ops) = sspec file ops.
+Proof. exact cache_invisible_from_empty. Qed.
+Print Assumptions C16_cache_invisible.
+
+(* a consumer that writes to the looked-up object makes the history visible *)
+Theorem C16_cache_written_refuted : snd (srun cw_file true [] cw_ops) <> sspec cw_file cw_ops.
+Proof. exact cache_visible_when_written. Qed.
+Print Assumptions C16_cache_written_refuted.
+
+(* ssh_config_factory keys the cache by the path it was given and stores the parse of that path *)
+Theorem C16_generated_factory_keyed_by_path : gen_factory_keyed_by_path = true.
+Proof. reflexivity. Qed.
+Print Assumptions C16_generated_factory_keyed_by_path.
+
 (* known_hosts, for ANY hmac / base64 functions *)
 Theorem C16_known_hosts_dict : forall lines h, kget h (kparse lines) = last_plain lines h.
 Proof. exact kparse_get. Qed.
